@@ -208,6 +208,15 @@ def battery_cases():
             "({},)", "({}, {})", "({})", "Vec<{}>", "Box<{}>", "m::W1<{}>", "::m::W1<{}>", "W1<{}>", "dyn Tr<{}>", "dyn Tr<{}> + Send",
             "dyn Tr<{}> + 'a", "dyn Tr<{}> + 'b", "dyn for<'x> Tr<{}>", "fn() -> {}", "fn({})", "fn({}, ...)", "<{} as Tr>::Out", "<{} as Tr2>::Out",
             "<{} as Tr>::Out2", "Tr<Out = {}>", "[u8; {{ {} }}]"]
+    # impl-group ids: the trait arguments and the self type share their parameters
+    P1 = PARAM_PREFIX + "1"
+    gids = [f"Kita<{P}> ## {P}", f"Kita<Marker> ## {P}", f"Kita<{P}> ## Marker", "Kita<Marker> ## Marker", f"Kita<{P1}> ## {P}",
+            f"Kita<Vec<{P}>> ## {P}", f"Kita<{P}> ## Vec<{P}>", "Kita<Vec<u8>> ## Vec<u8>", "Kita<Vec<u8>> ## u8", "Kita<u8> ## Vec<u8>",
+            f"Kita<{P}, {P1}> ## ({P}, {P1})", f"Kita<{P1}, {P}> ## ({P}, {P1})", "Kita<u8, i32> ## (u8, i32)", "Kita<u8, i32> ## (i32, u8)",
+            f"Kita ## {P}", "Kita ## Marker", f"Kita<'a, {P}> ## &'a {P}", "Kita<'b, u8> ## &'a u8", "Kita<'a, u8> ## &'a u8"]
+    for a in gids:
+        for b in gids:
+            out.append(("gid", a, b, "battery:gid"))
     tys = [r for r in refs if "Tr<Out" not in r and "{{" not in r]
     for a in tys:
         for b in tys:
@@ -246,7 +255,12 @@ def run(tier, seed, replay=None):
 
     reqs = []
     for kind, a, b, _ in cases:
-        reqs.append(("sup", [kind, a, b]))
+        if kind == "gid":
+            # impl-group ids: `TraitPath ## SelfType`
+            (at, as_), (bt, bs_) = a.split(" ## "), b.split(" ## ")
+            reqs.append(("sup", ["gid", at, as_, bt, bs_]))
+        else:
+            reqs.append(("sup", [kind, a, b]))
     hres = C.run_hook(exe, reqs)
 
     lean_reqs, idx = [], []
@@ -275,6 +289,10 @@ def run(tier, seed, replay=None):
     pan = [i for i, d in decoded.items() if d[0] == "panic"]
     if pan:
         dreq = []
+        for i in [i_ for i_ in pan if cases[i_][0] == "gid"]:
+            del decoded[i]
+            rep.count("gid-panic-not-redumped")
+        pan = [i_ for i_ in pan if cases[i_][0] != "gid"]
         for i in pan:
             kind, a, b, _ = cases[i]
             k = "path" if kind == "path" else kind
